@@ -13,6 +13,7 @@
 from __future__ import annotations
 
 import os
+import signal
 import subprocess
 import tempfile
 import time
@@ -31,6 +32,69 @@ def vc_to_smt2(hyps, goal):
     return s.to_smt2()
 
 
+def _guarded_check(s, budget_ms):
+    """decide the solver's assertions in a fresh z3 process that is killed when it overruns (z3's nonlinear core
+    can exceed its own timeout by orders of magnitude, and an in-process call cannot be interrupted)"""
+    if _z3_exe() is None:
+        try:
+            return s.check()
+        except z3.Z3Exception:
+            return z3.unknown
+    r, _, _ = _z3_cli(s.to_smt2(), int(budget_ms), seeds=(0, ), model=False)
+    return {"unsat": z3.unsat, "sat": z3.sat}.get(r, z3.unknown)
+
+
+def _z3_exe():
+    import shutil
+    import sys
+    for c in (os.path.join(os.path.dirname(sys.executable), "z3"), shutil.which("z3-new")):
+        if c and os.path.exists(c):
+            return c
+    return None
+
+
+def _z3_cli(smt2, timeout_ms, seeds=(0, 7, 23, 101), poll=None, model=True):
+    """the full-budget z3 stage as a portfolio over random seeds, each attempt in a fresh z3 process (same 5.1.0
+    engine as the python binding) that is killed when it overruns: first decisive answer wins"""
+    exe = _z3_exe()
+    if exe is None:
+        return _z3_check(smt2, timeout_ms, seeds)
+    t0 = time.time()
+    per = max(1500, timeout_ms // len(seeds))
+    with tempfile.NamedTemporaryFile("w", suffix=".smt2", delete=False, dir=os.environ.get("VERIF_TMP", None)) as f:
+        f.write(smt2 + ("\n(get-model)\n" if model else "\n"))
+        path = f.name
+    info = ""
+    killed = 0
+    try:
+        for n, seed in enumerate(seeds):
+            budget = per if n < len(seeds) - 1 else max(per, timeout_ms - int((time.time() - t0) * 1000))
+            cmd = [exe, "-smt2", "-t:%d" % budget, "smt.random_seed=%d" % seed, "sat.random_seed=%d" % seed, path]
+            if poll is not None and poll.poll() == "unsat":
+                return "cvc5-unsat", time.time() - t0, ""
+            try:
+                p = subprocess.run(cmd, capture_output=True, text=True, timeout=budget / 1000.0 * 2.0 + 5.0)
+                out = (p.stdout or "").strip()
+            except subprocess.TimeoutExpired:
+                killed += 1
+                info = "killed"
+                continue
+            head = out.split("\n", 1)[0].strip()
+            if head == "unsat":
+                return "unsat", time.time() - t0, "seed %d" % seed
+            if head == "sat":
+                return "sat", time.time() - t0, out[4:4000]
+            info = out[:200]
+            if (time.time() - t0) * 1000 > timeout_ms:
+                break
+    finally:
+        try:
+            os.unlink(path)
+        except OSError:
+            pass
+    return "unknown", time.time() - t0, ("killed" if killed == len(seeds) else info)
+
+
 def _z3_check(smt2, timeout_ms, seeds=(0, 7, 23, 101)):
     """z3 on the query, as a small portfolio over random seeds (quantifier instantiation order is sensitive to
     them): the first decisive answer wins; `unknown` only if every attempt is undecided"""
@@ -44,7 +108,7 @@ def _z3_check(smt2, timeout_ms, seeds=(0, 7, 23, 101)):
         if seed:
             s.set("smt.random_seed", seed)
         s.from_string(smt2)
-        r = s.check()
+        r = _guarded_check(s, per if n < len(seeds) - 1 else max(per, timeout_ms - int((time.time() - t0) * 1000)))
         if r == z3.unsat:
             return "unsat", time.time() - t0, "seed %d" % seed
         if r == z3.sat:
@@ -86,30 +150,168 @@ def _cvc5_check(smt2, timeout_ms):
     return r, dt, ""
 
 
+class _Cvc5Job:
+    """cvc5 on a query as a background process"""
+
+    def __init__(self, smt2, timeout_ms):
+        self.p = None
+        self.path = None
+        self.res = None
+        if not os.path.exists(CVC5):
+            self.res = "unknown"
+            return
+        txt = smt2 if "(set-logic" in smt2 else "(set-logic ALL)\n" + smt2
+        with tempfile.NamedTemporaryFile("w", suffix=".smt2", delete=False, dir=os.environ.get("VERIF_TMP", None)) as f:
+            f.write(txt)
+            self.path = f.name
+        self.deadline = time.time() + timeout_ms / 1000.0 + 5
+        self.p = subprocess.Popen([CVC5, "--lang=smt2", "--tlimit=%d" % timeout_ms, "--strings-exp", self.path],
+                                  stdout=subprocess.PIPE, stderr=subprocess.DEVNULL, text=True)
+
+    def _collect(self):
+        out = (self.p.stdout.read() or "").strip().splitlines()
+        r = out[0].strip() if out else "unknown"
+        self.res = r if r in ("sat", "unsat") else "unknown"
+
+    def poll(self):
+        if self.res is None and self.p.poll() is not None:
+            self._collect()
+        return self.res
+
+    def wait(self):
+        if self.res is not None:
+            return self.res
+        try:
+            self.p.wait(timeout=max(0.1, self.deadline - time.time()))
+            self._collect()
+        except subprocess.TimeoutExpired:
+            self.p.kill()
+            self.res = "unknown"
+        return self.res
+
+    def close(self):
+        if self.p is not None and self.p.poll() is None:
+            self.p.kill()
+        if self.p is not None:
+            try:
+                self.p.wait(timeout=5)
+            except Exception:
+                pass
+        if self.path:
+            try:
+                os.unlink(self.path)
+            except OSError:
+                pass
+
+
 class _Alarm(BaseException):
     pass
 
 
 def _with_alarm(seconds, fn, *a):
+    """fn(*a) under a SIGALRM budget; nests: an inner budget never outlives or cancels the enclosing one"""
     import signal
 
     def h(signum, frame):
         raise _Alarm()
     old = signal.signal(signal.SIGALRM, h)
-    signal.alarm(int(seconds))
+    t_start = time.time()
+    prev = signal.alarm(0)                      # seconds left of an enclosing budget (0: none)
+    mine = int(seconds) if not prev else max(1, min(int(seconds), prev))
+    signal.alarm(mine)
     try:
         return fn(*a)
     except _Alarm:
+        if prev and time.time() - t_start >= prev - 0.5:
+            # the enclosing budget is used up as well: let it see the alarm
+            signal.signal(signal.SIGALRM, old)
+            signal.alarm(1)
         return False, "timeout"
     finally:
         signal.alarm(0)
         signal.signal(signal.SIGALRM, old)
+        if prev:
+            left = prev - (time.time() - t_start)
+            signal.alarm(max(1, int(left)))
+
+
+def solve_many(payloads, workers=None, budget_s=None):
+    """discharge many obligations in parallel, one forked child per obligation, each under a hard wall-clock limit
+    (z3's nonlinear core and sympy can overrun every cooperative timeout by orders of magnitude; a child that
+    exceeds the limit is killed and its obligation is `undecided`).  Children never fork again and the parent never
+    runs a z3 query with a timeout before forking (z3's timer threads do not survive a fork)."""
+    import pickle
+    import select
+    workers = workers or min(16, os.cpu_count() or 4)
+    n = len(payloads)
+    results = [None] * n
+    pending = list(range(n))[::-1]
+    running = {}          # read fd -> [idx, pid, deadline, chunks, t0]
+    while pending or running:
+        while pending and len(running) < workers:
+            i = pending.pop()
+            args = payloads[i]
+            budget = budget_s if budget_s is not None else 4.0 * args[1] / 1000.0 + 120.0
+            r, w = os.pipe()
+            pid = os.fork()
+            if pid == 0:
+                try:
+                    os.close(r)
+                    try:
+                        data = pickle.dumps(_solve_one(args))
+                    except BaseException as e:     # noqa
+                        import traceback
+                        data = pickle.dumps(("undecided", "none", 0.0, "solver process failed: %r %s" % (
+                            e, traceback.format_exc()[-600:])))
+                    off = 0
+                    while off < len(data):
+                        off += os.write(w, data[off:off + 65536])
+                finally:
+                    os._exit(0)
+            os.close(w)
+            running[r] = [i, pid, time.time() + budget, [], time.time(), budget]
+        ready, _, _ = select.select(list(running), [], [], 0.5)
+        for r in ready:
+            b = os.read(r, 1 << 20)
+            if b:
+                running[r][3].append(b)
+                continue
+            i, pid, _, chunks, t0, budget = running.pop(r)
+            os.close(r)
+            try:
+                os.waitpid(pid, 0)
+            except OSError:
+                pass
+            try:
+                results[i] = pickle.loads(b"".join(chunks))
+            except Exception:
+                results[i] = ("undecided", "none", time.time() - t0, "solver process died")
+        now = time.time()
+        for r in [r for r, v in running.items() if v[2] < now]:
+            i, pid, _, chunks, t0, budget = running.pop(r)
+            try:
+                os.kill(pid, signal.SIGKILL)
+                os.waitpid(pid, 0)
+            except OSError:
+                pass
+            os.close(r)
+            results[i] = ("undecided", "none", now - t0, "hard wall-clock limit of %.0f s reached" % budget)
+    return results
 
 
 def _solve_one(args):
-    """runs in a worker process: smt2 text of (hyps, not goal) -> verdict"""
-    smt2, t_z3, t_cvc5, use_cvc5, poly, derived = args
+    return _solve_one_inner(args)
+
+
+def _solve_one_inner(args):
+    """smt2 text of (hyps, not goal) -> verdict"""
+    smt2, t_z3, t_cvc5, use_cvc5, poly, derived = args[:6]
     t0 = time.time()
+    try:
+        import faulthandler as _fh, signal as _sg, sys as _sy
+        _fh.register(_sg.SIGUSR1, file=_sy.stderr, all_threads=False)
+    except Exception:
+        pass
     if os.environ.get("PYVC_DEBUG_HANG"):
         import faulthandler, sys as _sys
         faulthandler.dump_traceback_later(int(os.environ["PYVC_DEBUG_HANG"]) - 30, exit=False, file=_sys.stderr)
@@ -126,7 +328,7 @@ def _solve_one(args):
         # a conjunction with quantified conjuncts: every conjunct is its own obligation
         worst, be_all, info_all = "discharged", set(), []
         for c_ in goal.children():
-            st, be, dt, info = _solve_one((vc_to_smt2(hyps, c_), t_z3, t_cvc5, use_cvc5, poly, derived))
+            st, be, dt, info = _solve_one_inner((vc_to_smt2(hyps, c_), t_z3, t_cvc5, use_cvc5, poly, derived))
             be_all.add(be)
             if st == "refuted":
                 return st, be, time.time() - t0, info
@@ -155,7 +357,7 @@ def _solve_one(args):
             return "discharged", "poly", time.time() - t0, how
     # 2. a quick z3 attempt (most obligations are decided here)
     quick = min(t_z3, 4000)
-    r, dt, info = _z3_check(smt2, quick, seeds=(0, ))
+    r, dt, info = _z3_cli(smt2, quick, seeds=(0, ))
     if r == "unsat":
         return "discharged", "z3", time.time() - t0, info
     if r == "sat":
@@ -186,7 +388,7 @@ def _solve_one(args):
         okA = _split_last(lin_hyps, goal, min(t_z3, 10000))
         if okA:
             return "discharged", "z3+split", time.time() - t0, okA
-        rA, dtA, infoA = _z3_check(vc_to_smt2(lin_hyps, goal), t_z3)
+        rA, dtA, infoA = _z3_cli(vc_to_smt2(lin_hyps, goal), t_z3)
         if rA == "unsat":
             return "discharged", "z3", time.time() - t0, "without nonlinear constraints"
     ok = _split_last(hyps, goal, min(t_z3, 4000))
@@ -198,20 +400,28 @@ def _solve_one(args):
         if ok:
             return "discharged", "groebner", time.time() - t0, "instantiated at a Skolem index; " + how
     # 6. z3 with the full budget (seed portfolio)
-    r, dt, info = _z3_check(smt2, t_z3)
-    if r == "unsat":
-        return "discharged", "z3", time.time() - t0, info
-    if r == "sat":
-        return "refuted", "z3", time.time() - t0, info
-    ok = _split_last(hyps, goal, t_z3)
-    if ok:
-        return "discharged", "z3+split", time.time() - t0, ok
-    if use_cvc5:
-        r2, dt2, info2 = _cvc5_check(smt2, t_cvc5)
-        if r2 == "unsat":
-            return "discharged", "cvc5", time.time() - t0, info2
-        if r2 == "sat":
-            return "refuted", "cvc5", time.time() - t0, "cvc5 sat (z3: %s)" % info
+    #    cvc5 works on the same query at the same time (both are external processes)
+    cv = _Cvc5Job(smt2, t_cvc5) if use_cvc5 else None
+    try:
+        r, dt, info = _z3_cli(smt2, t_z3, poll=cv)
+        if r == "unsat":
+            return "discharged", "z3", time.time() - t0, info
+        if r == "sat":
+            return "refuted", "z3", time.time() - t0, info
+        if r == "cvc5-unsat":
+            return "discharged", "cvc5", time.time() - t0, ""
+        ok = _split_last(hyps, goal, t_z3) if info != "killed" and not (cv and cv.poll() == "unsat") else None
+        if ok:
+            return "discharged", "z3+split", time.time() - t0, ok
+        if cv is not None:
+            r2 = cv.wait()
+            if r2 == "unsat":
+                return "discharged", "cvc5", time.time() - t0, ""
+            if r2 == "sat":
+                return "refuted", "cvc5", time.time() - t0, "cvc5 sat (z3: %s)" % info
+    finally:
+        if cv is not None:
+            cv.close()
     if eq_goal and not nl_goal:
         ok, how = _with_alarm(30, poly_discharge, phyps, pgoal, True)
         if ok:
@@ -255,7 +465,7 @@ def _split_last(hyps, goal, t_ms):
         for e in extra:
             s_.add(e)
         s_.add(z3.Not(body))
-        if s_.check() != z3.unsat:
+        if _guarded_check(s_, t_ms) != z3.unsat:
             return None
     return "case split on %s = %s - 1" % (v, str(H)[:40])
 
@@ -375,7 +585,7 @@ def _prop_abstraction_unsat(hyps, goal, timeout_ms=3000):
     for h in hyps:
         s_.add(ab(h))
     s_.add(z3.Not(ab(goal)))
-    return s_.check() == z3.unsat
+    return _guarded_check(s_, timeout_ms) == z3.unsat
 
 
 def _nonlinear(t):
@@ -516,7 +726,7 @@ def _poly_quantified(hyps, goal, max_hyp_eqs=60):
         for x in light:
             s_.add(x)
         s_.add(z3.Not(gh))
-        if s_.check() == z3.unsat:
+        if _guarded_check(s_, 2000) == z3.unsat:
             ground.append(bh)
     return poly_discharge(ground, concl, True, max_hyp_eqs)
 
@@ -582,7 +792,7 @@ def _poly_discharge(hyps, goal, use_groebner=True, max_hyp_eqs=40, all_hyps=None
             for h in hs:
                 s_.add(h)
             s_.add(zt == 0)
-            if s_.check() == z3.unsat:
+            if _guarded_check(s_, 3000) == z3.unsat:
                 return True
         return False
     for zt, dpoly, invsym in denoms:
@@ -892,8 +1102,8 @@ def discharge_all(vcs, t_z3_ms=10000, t_cvc5_ms=10000, use_cvc5=True, parallel=T
         hyps = relevant_hyps(vc.hyps, vc.goal)
         filtered.append(len(hyps) != len(vc.hyps))
         payload.append((vc_to_smt2(hyps, vc.goal), t_z3_ms, t_cvc5_ms, use_cvc5, poly, _derived_idx(vc, hyps)))
-    if parallel and len(jobs) > 1:
-        results = list(pool(workers).map(_solve_one, payload, chunksize=1))
+    if parallel:
+        results = solve_many(payload, workers)
     else:
         results = [_solve_one(p) for p in payload]
     retry = []
@@ -906,8 +1116,8 @@ def discharge_all(vcs, t_z3_ms=10000, t_cvc5_ms=10000, use_cvc5=True, parallel=T
     if retry:
         payload = [(vc_to_smt2(vc.hyps, vc.goal), t_z3_ms, t_cvc5_ms, use_cvc5, poly, _derived_idx(vc, vc.hyps))
                    for vc in retry]
-        if parallel and len(retry) > 1:
-            results = list(pool().map(_solve_one, payload, chunksize=1))
+        if parallel:
+            results = solve_many(payload)
         else:
             results = [_solve_one(p) for p in payload]
         for vc, (status, backend, dt, info) in zip(retry, results):
@@ -921,6 +1131,6 @@ def get_model(vc, timeout_ms=20000):
     for h in vc.hyps:
         s.add(h)
     s.add(z3.Not(vc.goal))
-    if s.check() == z3.sat:
+    if _guarded_check(s, timeout_ms) == z3.sat:
         return s.model()
     return None
